@@ -265,6 +265,78 @@ pub fn check_list(c: &ListCase) -> CaseResult {
         } else if n > 0 {
             return Err((format!("op=append shape={}", shape), "non-empty list is not a cons".into()));
         }
+        // ---- consuming walk through into_pair: every element once, then the tail
+        if n <= 2000 {
+            let mut cur = l.clone();
+            let mut seen: Vec<MV> = Vec::new();
+            while let Value::Cons(cell) = cur {
+                let (a, d) = cell.into_pair();
+                seen.push(MV::from_value(&a));
+                cur = d;
+            }
+            if seen != ys || MV::from_value(&cur) != tt {
+                return Err((format!("op=into_pair-walk shape={}", shape), format!("walking with into_pair gives {} elements and tail {}", seen.len(), short(&cur))));
+            }
+        }
+        // ---- the mutable accessors change exactly the cell they are applied to
+        if n > 0 && n <= 2000 {
+            let at = c.idx.first().map_or(0, |i| (*i as usize) % n);
+            for how in ["set_car", "car_mut", "peek_mut"] {
+                let mut m = l.clone();
+                let marker = Value::symbol("replaced-element");
+                match how {
+                    "peek_mut" => {
+                        // the consuming iterator lets the caller edit the cell it is about to yield
+                        let mut out: Vec<MV> = Vec::new();
+                        if let Value::Cons(cell) = m {
+                            let mut it = cell.into_iter();
+                            let mut i = 0;
+                            loop {
+                                if i == at {
+                                    if let Some(cur) = it.peek_mut() {
+                                        cur.set_car(marker.clone());
+                                    }
+                                }
+                                match it.next() {
+                                    Some((x, _)) => out.push(MV::from_value(&x)),
+                                    None => break,
+                                }
+                                i += 1;
+                            }
+                        }
+                        let mut want = ys.clone();
+                        want[at] = MV::sym("replaced-element");
+                        if out != want {
+                            return Err((format!("op=peek_mut shape={}", shape), format!("editing element {} through IntoIter::peek_mut gives {:?}", at, out.iter().map(short).collect::<Vec<_>>())));
+                        }
+                        continue;
+                    }
+                    _ => {
+                        fn nth_cell(v: &mut Value, k: usize) -> Option<&mut Cons> {
+                            let cell = v.as_cons_mut()?;
+                            if k == 0 {
+                                Some(cell)
+                            } else {
+                                nth_cell(cell.cdr_mut(), k - 1)
+                            }
+                        }
+                        if let Some(cell) = nth_cell(&mut m, at) {
+                            if how == "set_car" {
+                                cell.set_car(marker.clone());
+                            } else {
+                                *cell.car_mut() = marker.clone();
+                            }
+                        }
+                    }
+                }
+                let mut want = ys.clone();
+                want[at] = MV::sym("replaced-element");
+                let want_v = MV::List(want, Box::new(tt.clone()));
+                if MV::from_value(&m) != want_v {
+                    return Err((format!("op={} shape={}", how, shape), format!("replacing element {} gives {}", at, short(&m))));
+                }
+            }
+        }
         Ok(())
     });
     match r {
